@@ -727,6 +727,9 @@ func (pe *PolicyEngine) AddPodByNameAndNamespace(name, ns string) (Peer, error) 
 		Name:      name,
 		Namespace: ns,
 		FakePod:   true,
+		// a policy may select this pod too: its exposure data must be usable like that of every other pod
+		IngressExposureData: k8s.PodExposureInfo{ClusterWideConnection: common.MakeConnectionSet(false)},
+		EgressExposureData:  k8s.PodExposureInfo{ClusterWideConnection: common.MakeConnectionSet(false)},
 	}
 	if err := pe.resolveSingleMissingNamespace(ns); err != nil {
 		return nil, err
